@@ -56,6 +56,7 @@ type cgNode struct {
 	callees map[*cgNode]bool
 	eff     *Effects
 	dyn     []dynCall
+	ghost   map[string]bool // ghost globals assigned by the contract's at-clauses (closed over static calls)
 }
 
 type dynCall struct {
@@ -178,6 +179,47 @@ func (w *World) graph() *callGraph {
 		}
 		n.direct = newEffects()
 		w.scanDirect(n.info, body, n.direct, func(c *cgNode) { n.callees[c] = true }, func(d dynCall) { n.dyn = append(n.dyn, d) }, n.lit)
+		// ghost globals assigned by the "at" clauses of the function's contract are part of its write set: a caller
+		// must not keep what it knew about them across the call
+		if n.fi != nil && w.Specs != nil {
+			if ct := w.Specs.ByKey[n.fi.Key]; ct != nil {
+				for _, at := range ct.Ats {
+					for _, cl := range at.Clauses {
+						if cl.Kind != "ghost" {
+							continue
+						}
+						if k := strings.Index(cl.Text, "="); k > 0 {
+							name := strings.TrimSpace(cl.Text[:k])
+							if _, ok := w.Specs.GhostVars[name]; ok {
+								if n.ghost == nil {
+									n.ghost = map[string]bool{}
+								}
+								n.ghost["G$"+name] = true
+							}
+						}
+					}
+				}
+			}
+		}
+	}
+	// ghost globals travel along static call edges only: a ghost history belongs to one activation of the function
+	// whose contract keeps it, and re-entering that function through interface dispatch from inside its own callees is
+	// not modelled (stated in DESIGN.md)
+	for changed := true; changed; {
+		changed = false
+		for _, n := range g.nodes {
+			for c := range n.callees {
+				for k := range c.ghost {
+					if !n.ghost[k] {
+						if n.ghost == nil {
+							n.ghost = map[string]bool{}
+						}
+						n.ghost[k] = true
+						changed = true
+					}
+				}
+			}
+		}
 	}
 	w.ff = w.buildFVFlow()
 	for _, n := range g.nodes {
@@ -192,6 +234,7 @@ func (w *World) graph() *callGraph {
 		n.eff = newEffects()
 		n.eff.merge(n.direct)
 	}
+
 	for changed := true; changed; {
 		changed = false
 		for _, n := range g.nodes {
@@ -283,7 +326,12 @@ func (w *World) effectsOf(fn *types.Func) *Effects {
 func (w *World) effectsOfCall(info *types.Info, call *ast.CallExpr) *Effects {
 	w.graph()
 	eff := newEffects()
-	w.callEffects(info, call, eff, func(c *cgNode) { eff.merge(c.eff) }, func(d dynCall) {
+	w.callEffects(info, call, eff, func(c *cgNode) {
+		eff.merge(c.eff)
+		for k := range c.ghost {
+			eff.Writes[k] = true
+		}
+	}, func(d dynCall) {
 		for _, t := range w.resolveDyn(d) {
 			eff.merge(t.eff)
 		}
@@ -353,6 +401,9 @@ func (w *World) scanEffects(info *types.Info, body ast.Node) *Effects {
 	w.scanDirect(info, body, eff, func(c *cgNode) {
 		if !w.noCalleeEffects {
 			eff.merge(c.eff)
+			for k := range c.ghost {
+				eff.Writes[k] = true
+			}
 		}
 	}, func(d dynCall) {
 		if w.noCalleeEffects {
